@@ -153,6 +153,9 @@ def parseStmt (toks : List String) : Option Stmt :=
     if n = 0 then none else some (.lock (← parseVariant v) (← nat? k) (some n))
   | "op" :: slot :: rest => do some (.op (← nat? slot) (← parseGOp rest))
   | ["drop", slot] => (nat? slot).map .drop
+  | ["alock", v, k] => if v = "a" ∨ v = "ao" then (nat? k).map .alock else none
+  | ["apoll", slot] => (nat? slot).map .apoll
+  | ["acancel", slot] => (nat? slot).map .acancel
   | ["count"] => some .count
   | ["keys"] => some .keys
   | _ => none
@@ -162,6 +165,8 @@ def parseProg (s : String) : Option (List Stmt) :=
 
 def eventStr (sorted : Bool) : Event → String
   | .lock slot got => "lock" ++ toString slot ++ "=" ++ (if got then "guard" else "none")
+  | .lockPending slot => "lock" ++ toString slot ++ "=pending"
+  | .poll slot got => "poll" ++ toString slot ++ "=" ++ (if got then "guard" else "pending")
   | .op slot o => "op" ++ toString slot ++ "=" ++ outStr sorted o
   | .count o => "count=" ++ outStr sorted o
   | .keys o => "keys=" ++ outStr sorted o
